@@ -15,7 +15,7 @@ LEVEL = "proof"
 
 MANIFEST = {
     "technique": "Coq proof (template-shape expansion, Python block-rule parser lemma, big-step semantics vs table interpreter) + translation validation of the generated module + execution against the interpreter",
-    "text": ("Theorems C08_sem / C08_init / C08_block_structure: for every well-formed table, every event sequence and every guard oracle "
+    "text": ("Theorems C08_sem / C08_sem_triggered / C08_init / C08_block_structure: for every well-formed table, every event sequence and every guard oracle "
              "(indexed by call count) the lines smgen produces from the shipped template's transition blocks (shape regenerated from the "
              "template into Gen/PyTmpl.v on every run) parse by Python's block rule, and the parsed program makes exactly the callbacks and "
              "passes through exactly the states of the independent table interpreter (Spec/TableInterp.v). Tie: gen_py T equals the "
@@ -23,8 +23,9 @@ MANIFEST = {
              "CPython's ast.parse (also on perturbed indentation); CTransitionTableModel vs Model/TTable.v; the real modules are imported in a "
              "subprocess and driven through Trigger<Event> under a tracing controller subclass and compared with the interpreter."),
     "note": ("Proved about the model of the template as repaired by two fix: commits (unguarded rows get 'if True:'; process() ends in "
-             "NoTransition). Modelled, not verified: CPython executing if/return/method calls as the big-step semantics says; Trigger<Event> "
-             "reaching process(event) when StateMachineThread=0 (threaded delivery is C11); isinstance on distinct event classes = name equality. "
+             "NoTransition). Modelled, not verified: CPython executing if/return/method calls as the big-step semantics says; the construction of the event object in "
+             "Trigger<Event> (that Trigger calls process(event) synchronously exactly once when StateMachineThread=0 is now part of the theorem, "
+             "C08_sem_triggered, from the IR of Gen/PySync.v; threaded delivery is C11); isinstance on distinct event classes = name equality. "
              "Names that collide with identifiers the template itself uses (Enum, EventStartup, NoTransition, ...) are outside the proof's name "
              "abstraction; they are probed on the real code."),
 }
@@ -41,7 +42,8 @@ TRUSTED = ["Coq 8.16.1 kernel (coqc; coqchk in the thorough tier)", "axioms: non
            "translator/pytmpl.py (regex classification of the template's __init__ tail and State Processing section, fail closed)",
            "extraction: ExtrOcamlBasic + ExtrOcamlNativeString; ocaml/cmds_sm.ml",
            "harness abstraction of generated Python lines to (indent, kind, name) by regex",
-           "modelled, not verified: CPython's execution of if/return/method calls and isinstance; Trigger<Event> -> process(event) in non-threaded mode"]
+           "translator/pysync.py (IR of Trigger<Event>, shared with C11)",
+           "modelled, not verified: CPython's execution of if/return/method calls and isinstance; event = <Event>(args) in Trigger<Event>"]
 ALLOWED_AXIOMS = []
 
 PY = sys.executable
